@@ -138,7 +138,16 @@ def gen_root(rng, name):
     lo = -(179 * 3600000 // long_inc)
     hi = (179 * 3600000 - (ncol - 1) * long_inc) // long_inc
     e_long = rng.randrange(lo, hi + 1) * long_inc
-    k = rng.random()
+    edge = rng.random()
+    if edge < 0.05:
+        e_long = -180 * 3600000                                   # eastern extent exactly on the antimeridian (180 E)
+    elif edge < 0.10:
+        e_long = 180 * 3600000 - (ncol - 1) * long_inc            # western extent exactly 180 W
+    elif edge < 0.14:
+        e_long = -((ncol // 2) * long_inc)                        # straddles the prime meridian, node on lon = 0
+    if edge < 0.14 and rng.random() < 0.5:
+        s_lat = -((nrow // 2) * lat_inc)                          # and the equator
+    k = rng.random() if edge >= 0.14 else 1.0
     if k < 0.2:           # sub-arc-second extents (dyadic)
         s_lat += rng.choice([500, 250, 125])
         e_long += rng.choice([500, 250, 125])
